@@ -28,7 +28,7 @@ CONSTANTS FLAVOUR,       \* "base" | "enumerable" | "consecutive"
           RcSet,         \* recipients of mints and transfers
           ToSet,         \* approved accounts / operators
           FromSet,       \* `from` of transfer_from / burn_from
-          PreMode,       \* pre-minted tokens: "none" | "two" (see Pre / PreN below)
+          PreMode,       \* pre-minted tokens: "none" | "two" | "three" (see Pre / PreN below)
           DUs,           \* approval lifetimes: live_until - now  (plus the revoking 0)
           PastDU,        \* TRUE: also live_until = now - 1 (TLC's cfg parser has no negative set elements)
           DTs,           \* ledgers advanced before a call
@@ -43,8 +43,9 @@ vars == <<s, now, g, viol, hist>>
 View == <<s, now, g, viol, Len(hist)>>
 
 \* pre-minted tokens: owner and batch size (the size is ignored unless consecutive)
-Pre    == IF PreMode = "two" THEN <<"a", "b">> ELSE <<>>
-PreN   == IF PreMode = "two" THEN <<2, 1>> ELSE <<>>
+\* "three": the approved account / operator b holds exactly one token itself, the owner a two
+Pre    == IF PreMode = "two" THEN <<"a", "b">> ELSE IF PreMode = "three" THEN <<"a", "a", "b">> ELSE <<>>
+PreN   == IF PreMode = "two" THEN <<2, 1>> ELSE IF PreMode = "three" THEN <<1, 1, 1>> ELSE <<>>
 IB     == ITEMS * BITS                       \* ids per bucket
 Ids    == (0..(MaxId + 1)) \cup XIds         \* every id the model ever names
 NIdx   == Cardinality(Ids)
